@@ -10,7 +10,7 @@ Definition table_eqb (a b : table) : bool := list_eqb entry_eqb a b.
 Definition hout_eqb (a b : hout) : bool :=
   match a, b with
   | HErr, HErr => true
-  | HPred i t, HPred j u => (i =? j) && table_eqb t u
+  | HPred i t a, HPred j u b => (i =? j) && table_eqb t u && (a =? b)
   | _, _ => false
   end.
 
@@ -46,7 +46,7 @@ Definition raised_agrees (m : option hout) (o : option (option Z)) : bool :=
   match m, o with
   | None, None => true
   | Some HErr, Some None => true
-  | Some (HPred _ _), Some (Some _) => true
+  | Some (HPred _ _ _), Some (Some _) => true
   | _, _ => false
   end.
 
